@@ -146,11 +146,16 @@ class Mon(Jaqmon):
         except Exception:
             pass
 
-    def _send(self, obj):
+    def _send(self, obj, raw_cases=None):
         if self.p is None or self.p.poll() is not None:
             self.stop()
             self.start()
-        data = (json.dumps(obj) + "\n").encode()
+        if raw_cases is not None:
+            # cases given as pre-serialised JSON texts (json.dumps of millions of small dicts is the bottleneck)
+            head = json.dumps(obj)
+            data = (head[:-1] + ', "cases": [' + ",".join(raw_cases) + "]}\n").encode()
+        else:
+            data = (json.dumps(obj) + "\n").encode()
         try:
             self.p.stdin.write(data)
             self.p.stdin.flush()
@@ -196,8 +201,8 @@ class Mon(Jaqmon):
         self._send(obj)
         return self._recv(timeout)
 
-    def evalc(self, prog, cases, vars=(), take=4, stream=(), chunk=32, timeout=5.0, death_budget=12, stop_on_death=False, max_seconds=None):
-        """-> dict(status, codes(list of 1-char codes; 'D' = worker died on that case, 'S' = skipped),
+    def evalc(self, prog, cases, vars=(), take=4, stream=(), chunk=32, timeout=5.0, death_budget=12, stop_on_death=False, max_seconds=None, raw=False, pool=None):
+        """`raw`: cases are JSON texts. -> dict(status, codes(list of 1-char codes; 'D' = worker died on that case, 'S' = skipped),
         panics{idx:(msg,loc)}, deaths{idx:class}, report?)"""
         n = len(cases)
         out = {"status": "ok", "codes": [None] * n, "panics": {}, "deaths": {}}
@@ -208,8 +213,14 @@ class Mon(Jaqmon):
         while True:
             if trace is not None:
                 trace.append(("send", start, chunk, round(time.monotonic() - t_begin, 2)))
-            self._send({"op": "evalc", "prog": prog, "vars": [[a, b] for a, b in vars], "take": take,
-                        "stream": list(stream), "chunk": chunk, "cases": cases[start:]})
+            req = {"op": "evalc", "prog": prog, "vars": [[a, b] for a, b in vars], "take": take, "stream": list(stream), "chunk": chunk}
+            if pool is not None:
+                req["pool"] = pool      # cases are index tuples into this list of wire values
+            if raw:
+                self._send(req, cases[start:])
+            else:
+                req["cases"] = cases[start:]
+                self._send(req)
             done_upto = start
             first = True
             try:
@@ -219,8 +230,7 @@ class Mon(Jaqmon):
                     first = False
                     if "p" in r:
                         k0 = start + r["p"]
-                        for j, ch in enumerate(r["c"]):
-                            out["codes"][k0 + j] = ch
+                        out["codes"][k0:k0 + len(r["c"])] = r["c"]
                         for k, msg, loc in r["panics"]:
                             out["panics"][start + k] = (msg, loc)
                         done_upto = k0 + len(r["c"])
@@ -267,7 +277,7 @@ class Mon(Jaqmon):
                     start = done_upto + 1
                 else:
                     b = min(n, done_upto + chunk)
-                    sub = self.evalc(prog, cases[done_upto:b], vars, take, stream, 1, timeout, death_budget - ndeaths, stop_on_death)
+                    sub = self.evalc(prog, cases[done_upto:b], vars, take, stream, 1, timeout, death_budget - ndeaths, stop_on_death, None, raw, pool)
                     if sub["status"] != "ok":
                         out["status"] = sub["status"]
                         for key in ("report", "panic", "death"):
